@@ -88,7 +88,7 @@ fn main() {
         ctx.finish("model_checking", "replay");
     }
     let quick = ctx.quick();
-    asys::uplinks::run(&ctx, "uplinks-bfs-value", if quick { 6 } else { 8 }, |m| m.contains("lane-kind=value") || m.contains("terminates") || m.contains("one_writer"));
+    asys::uplinks::run(&ctx, "uplinks-bfs-value", if quick { 7 } else { 8 }, |m| m.contains("lane-kind=value") || m.contains("terminates") || m.contains("one_writer"));
     let sc = scripts(quick);
     let modes = [Mode::Eager, Mode::Burst, Mode::SlowRead];
     let cfgs = grid(&sc, &[8, 48, 4096], &[2, 3, 64], &modes, &[0]);
